@@ -28,7 +28,7 @@ ASSUMPTIONS = [
 POOL = [
     "", " ", "'", '"', "'abc", '"abc', "'''", '"""', "'a' 'b'", "u'a'", "b'a'", "rb'x'", "f'{x}'", '"\\u"', '"\\x"', '"\\N{x}"', "'\\'", "\\",
     "(", ")", "[", "]", "{", "}", "((", "())", "[a", "a]", "a)(", "*", "**", "+", "-", "--", "/", "%", "%%", "%d", "%Y", "%(x)s", "{0}", "$", "^", "|", "?", "(?P<x>", "(?", "[z-a]", "a{2,1}", "\\1", "*a", "a**",
-    "0", "-1", "1e999", "-1e999", "9" * 40, "-" + "9" * 40, "1" + "0" * 400, "0x", "0x110000", "1114112", "0b2", "1__0", "1_", "1.2.3", "1..5", "1....5", "...", "…", ":", "1:2:3", ",", ",,", "1,", ",1", "5...1",
+    "0", "-1", "2", "3", "1e999", "-1e999", "9" * 40, "-" + "9" * 40, "1" + "0" * 400, "0x", "0x110000", "1114112", "0b2", "1__0", "1_", "1.2.3", "1..5", "1....5", "...", "…", ":", "1:2:3", ",", ",,", "1,", ",1", "5...1",
     "NaN", "nan", "Infinity", "-Infinity", "inf", "sNaN", "1e5", "١٢٣", "１２", "äöü", "€", " ", "\x00", "\t", "\n", "\r\n", "a\nb", "\x1b[0m", "﻿", "\ud800",
     "class", "None", "lambda", "import os", "__import__('os')", "is valid", "is_valid", "format", "_format", "VALID_LINE_DELIMITER_TEXTS", "__dict__", "__class__",
     "-1e5000", "-1e5000...", "...-1e5000", "1e5000", "...5", ":5", "5...", "1e999999999999999999", "1e-999999999999999999", "0...1e999999999999999999", "a{99999999999}", "(a{99999}){99999}", "0x" + "f" * 5000, "9" * 5000, "hex", "rot13", "base64", "zlib_codec", "unicode_escape", "idna", "punycode",
